@@ -54,3 +54,18 @@ CLAIMS["C13"] = ("registry writer/reader table check + path enumeration of callb
  "the handler call is wrapped by except Exception; no unguarded raising operation on handler-supplied objects precedes the send; "
  "the error answer's six fields flow from the request / local configuration with Result-Code folding to 5012. Run-time table "
  "contents and cross-process delivery are not decided.", "DESIGN.md section 4, C13")
+CLAIMS["C14"] = ("path enumeration of Bromelia.send_message (call-order rule), registry key table checks, CFG must-pass of the notify/wait rendezvous",
+ "On every path on which a request is published and awaited, the waiter is registered before the hand-over to the worker; insert, "
+ "lookup, membership and removal key the registry by the same header field; the dispatch side replaces the waiter's message before "
+ "notifying and removes after; notify() sets on every path the very event wait() blocks on, and wait() releases the notifier. These "
+ "are necessary conditions for 'always wakes / own answer'; the interleaving quantifier itself is not decided.", "DESIGN.md section 4, C14")
+CLAIMS["C15"] = ("path enumeration of the draw loops (test-and-insert on every return), who-may-write/call rules, lockset dataflow on the CFG",
+ "For any random source: every returned identifier passed a non-membership test in, and was inserted into, its own process-wide "
+ "registry; registries are written only by the draw functions, which are called only on the no-header branch of "
+ "DiameterRequest.__init__; drawn values reach the header field of the same name; test and insert execute in one region of a "
+ "class-level lock. Together these imply the property for sequential and concurrent creation.", "DESIGN.md section 4, C15")
+CLAIMS["C16"] = ("monotone-counter rule over the functions reachable from get_session_id (who-may-write + dominance), CFG must-increment, f-string shape",
+ "The (init, id) pair changes only by a positive increment on every path reachable from the generator (any reset must be guarded by a "
+ "strict increase of the time component), every generated id is formatted after an increment as identity;high;low[;optional] with "
+ "the identity first, generation happens only for str input (bytes are carried unchanged, cf. C02) and on bulk update only when "
+ "origin_host is given without session_id. Clock behaviour across process restarts is not decided.", "DESIGN.md section 4, C16")
